@@ -736,8 +736,15 @@ def load_func_for_dataclass(
 
                     if has_catch_all:
                         line = 'catch_all[json_key] = o[json_key]'
+                        # Keys that are known but map to no field by themselves
+                        # are not "unknown": the tag key, and the top-level key
+                        # of a nested path (its value is read by `safe_get`).
+                        known_keys = {path[0] for path in field_to_path.values()}
                         if has_tag_assigned:
-                            with fn_gen.elif_(f'json_key != {meta.tag_key!r}'):
+                            known_keys.add(meta.tag_key)
+                        if known_keys:
+                            _locals['known_keys'] = frozenset(known_keys)
+                            with fn_gen.elif_('json_key not in known_keys'):
                                 fn_gen.add_line(line)
                         else:
                             with fn_gen.else_():
